@@ -20,6 +20,8 @@ CrashLabels(e) ==
     ELSE (IF ~Dense(e.read) THEN {<<"C04.not_dense", e.at, e.file, e.torn>>} ELSE {})
          \cup (IF ~IsPrefix(Ms(e.read), e.sent) THEN {<<"C04.not_a_prefix", e.at, e.file, e.torn, Ms(e.read)>>} ELSE {})
          \cup (IF wait /\ Len(e.read) < Len(e.acked) THEN {<<"C04.completed_write_lost", e.at, e.file, e.torn, Len(e.read), Len(e.acked)>>} ELSE {})
+         \* the image left by a GRACEFUL shutdown holds everything that was accepted, whatever the confirmation mode (C03)
+         \cup (IF e.at = "graceful" /\ Len(e.read) < Len(e.sent) THEN {<<"C03.graceful_shutdown_lost", Len(e.read), Len(e.sent)>>} ELSE {})
          \cup (IF e.stored \notin (SetOf(e.offsets) \cup {-1}) THEN {<<"C04.offset_garbage", e.stored>>} ELSE {})
          \cup (IF ~e.append_ok THEN {<<"C04.append_refused_after_recovery", e.at, e.file, e.torn>>} ELSE {})
          \cup (IF e.append_ok /\ (Len(e.read_after) # Len(e.read) + 1 \/ ~Dense(e.read_after) \/ ~IsPrefix(Ms(e.read), Ms(e.read_after))
